@@ -8,7 +8,11 @@ tokenizer consumed by coq/XpxDefs.v (GenXpx.v).  Regenerated from /repo on every
              set:trailing's keeps `isNodeAfter == true`; FunctionDistinct tests the set of seen
              string-values BEFORE adding and adds the node that is current at that moment (the first of
              its class); math:min/lowest use DoubleSupport::lessThan, math:max/highest greaterThan, and a
-             NaN operand ends the loop with NaN / the empty list."""
+             NaN operand ends the loop with NaN / the empty list.
+  variants   str:padding / str:align: exactly two forms of each execute() are recognised — lengths = length() and cuts at
+             code-unit offsets (as found, K6x), or lengths = length() - XPathCharacters::countPairs() and cuts through
+             unitsOfCharacters() / XPathCharacters::unitsOf() (repaired; the helper loops are checked token for token by
+             gen_xpcp._helpers).  gen_exslt_padding_align_count_characters selects XpxCpDefs.padding_tree / align_tree."""
 import re
 import srcfacts
 from srcfacts import AnchorError, need, read, strip_comments, function_body, HEADER
@@ -62,6 +66,68 @@ def _nlist(xs):
     return "[" + "; ".join("%d%%N" % x for x in xs) + "]"
 
 
+_AL_HEAD = ("{const XObjectArgVectorType::size_type theSize=args.size();if(theSize!=2&&theSize!=3){generalError(executionContext,context,locator);}"
+            "assert(args[0].null()==false&&args[1].null()==false&&(theSize==2||args[2].null()==false));"
+            "const XalanDOMString&theTargetString=args[0]->str(executionContext);const XalanDOMString&thePaddingString=args[1]->str(executionContext);")
+_AL_EQ = ("if(theTargetStringLength==thePaddingStringLength){return XObjectPtr(args[0]);}else{const GetCachedString theGuard(executionContext);"
+          "XalanDOMString&theResult=theGuard.get();if(theTargetStringLength>thePaddingStringLength){")
+_AL_TAIL = "}}return executionContext.getXObjectFactory().createString(theResult);}}"
+ALIGN_UNITS = (_AL_HEAD +
+    "const XalanDOMString::size_type theTargetStringLength=theTargetString.length();"
+    "const XalanDOMString::size_type thePaddingStringLength=thePaddingString.length();" + _AL_EQ +
+    "theResult.assign(theTargetString,0,thePaddingStringLength);}else{theResult.reserve(thePaddingStringLength);"
+    "enum eAlignment{eCenter,eLeft,eRight};eAlignment theAlignment=eLeft;<KW>"
+    "if(theAlignment==eLeft){theResult=theTargetString;"
+    "theResult.append(thePaddingString,theTargetStringLength,thePaddingStringLength-theTargetStringLength);}"
+    "else if(theAlignment==eRight){theResult.assign(thePaddingString,0,thePaddingStringLength-theTargetStringLength);"
+    "theResult.append(theTargetString);}"
+    "else if(theAlignment==eCenter){const XalanDOMString::size_type theStartIndex=(thePaddingStringLength-theTargetStringLength)/2;"
+    "theResult.assign(thePaddingString,0,theStartIndex);theResult.append(theTargetString);"
+    "theResult.append(thePaddingString,theTargetStringLength+theStartIndex,thePaddingStringLength-theTargetStringLength-theStartIndex);"
+    + _AL_TAIL)
+ALIGN_CHARACTERS = (_AL_HEAD +
+    "const XalanDOMString::size_type theTargetStringUnits=theTargetString.length();"
+    "const XalanDOMString::size_type thePaddingStringUnits=thePaddingString.length();"
+    "const XalanDOMString::size_type theTargetStringPairs=XPathCharacters::countPairs(theTargetString.c_str(),theTargetStringUnits);"
+    "const XalanDOMString::size_type thePaddingStringPairs=XPathCharacters::countPairs(thePaddingString.c_str(),thePaddingStringUnits);"
+    "const XalanDOMString::size_type theTargetStringLength=theTargetStringUnits-theTargetStringPairs;"
+    "const XalanDOMString::size_type thePaddingStringLength=thePaddingStringUnits-thePaddingStringPairs;" + _AL_EQ +
+    "theResult.assign(theTargetString,0,unitsOfCharacters(theTargetString,theTargetStringPairs,thePaddingStringLength));}"
+    "else{theResult.reserve(thePaddingStringUnits+theTargetStringUnits);"
+    "enum eAlignment{eCenter,eLeft,eRight};eAlignment theAlignment=eLeft;<KW>"
+    "if(theAlignment==eLeft){theResult=theTargetString;"
+    "const XalanDOMString::size_type theOffset=unitsOfCharacters(thePaddingString,thePaddingStringPairs,theTargetStringLength);"
+    "theResult.append(thePaddingString,theOffset,thePaddingStringUnits-theOffset);}"
+    "else if(theAlignment==eRight){theResult.assign(thePaddingString,0,"
+    "unitsOfCharacters(thePaddingString,thePaddingStringPairs,thePaddingStringLength-theTargetStringLength));"
+    "theResult.append(theTargetString);}"
+    "else if(theAlignment==eCenter){const XalanDOMString::size_type theStartIndex=(thePaddingStringLength-theTargetStringLength)/2;"
+    "theResult.assign(thePaddingString,0,unitsOfCharacters(thePaddingString,thePaddingStringPairs,theStartIndex));"
+    "theResult.append(theTargetString);"
+    "const XalanDOMString::size_type theOffset=unitsOfCharacters(thePaddingString,thePaddingStringPairs,theTargetStringLength+theStartIndex);"
+    "theResult.append(thePaddingString,theOffset,thePaddingStringUnits-theOffset);"
+    + _AL_TAIL)
+_PD_HEAD = ("{assert(m_space==s_spaceString);const XObjectArgVectorType::size_type theSize=args.size();if(theSize!=1&&theSize!=2)"
+            "{generalError(executionContext,context,locator);}assert(args[0].null()==false&&(theSize==1||args[1].null()==false));"
+            "const double theLength=DoubleSupport::round(args[0]->num(executionContext));"
+            "const XalanDOMString&thePaddingString=theSize==2?args[1]->str(executionContext):m_space;")
+_PD_GUARD = ("if(<GUARD>thePaddingStringLength==0){return executionContext.getXObjectFactory().createStringReference(s_emptyString);}"
+             "else{const GetCachedString theGuard(executionContext);XalanDOMString&theResult=theGuard.get();")
+_PD_LOOP = ("{theResult.assign(XalanDOMString::size_type(theLength),thePaddingString[0]);}"
+            "else{XalanDOMString::size_type theRemainingLength=XalanDOMString::size_type(theLength);"
+            "for(;;){if(theRemainingLength>thePaddingStringLength){theResult.append(thePaddingString);"
+            "theRemainingLength-=thePaddingStringLength;}else{theResult.append(thePaddingString,0,")
+_PD_TAIL = ");break;}}}return executionContext.getXObjectFactory().createString(theResult);}}"
+PADDING_UNITS = (_PD_HEAD + "const XalanDOMString::size_type thePaddingStringLength=thePaddingString.length();" + _PD_GUARD +
+                 "if(thePaddingStringLength==1)" + _PD_LOOP + "XalanDOMString::size_type(theRemainingLength)" + _PD_TAIL)
+PADDING_CHARACTERS = (_PD_HEAD +
+    "const XalanDOMString::size_type thePaddingStringUnits=thePaddingString.length();"
+    "const XalanDOMString::size_type thePaddingStringPairs=XPathCharacters::countPairs(thePaddingString.c_str(),thePaddingStringUnits);"
+    "const XalanDOMString::size_type thePaddingStringLength=thePaddingStringUnits-thePaddingStringPairs;" + _PD_GUARD +
+    "if(thePaddingStringUnits==1)" + _PD_LOOP + "unitsOfCharacters(thePaddingString,thePaddingStringPairs,theRemainingLength)" + _PD_TAIL)
+UNITS_OF_CHARACTERS = "{return thePairs==0?theCount:XPathCharacters::unitsOf(theString.c_str(),theString.length(),theCount);}"
+
+
 def gen_xpx():
     tbl = _unicode_table()
     facts = {}
@@ -97,6 +163,33 @@ def gen_xpx():
         raise AnchorError("str:align: 'center' and 'right' are compared differently")
     align_exact = ex_c
     need(_lit("if (theAlignment == eLeft)"), al, "str:align: left is the default alignment", 0)
+    # str:padding / str:align measure and cut in UTF-16 code units (as found, K6x) or in characters (repaired): exactly
+    # these two forms of each function are recognised; the keyword comparison of str:align (above) and the guard on the
+    # numeric argument of str:padding (C03's) are left out of the comparison
+    pd = _norm(function_body(es, r"XalanEXSLTFunctionPadding::execute\s*\([^)]*\)\s*const\s*\{", "XalanEXSLTFunctionPadding::execute"))
+
+    def form_of(body, forms, what):
+        hit = [k for k, tpl in forms.items()
+               if re.fullmatch(re.escape(tpl).replace("<KW>", ".*?").replace("<GUARD>", "[^{};]*?"), body)]
+        if len(hit) != 1:
+            raise AnchorError("%s: neither the code-unit form nor the character form the model was written against" % what)
+        return hit[0]
+    align_cp = form_of(al, {False: ALIGN_UNITS, True: ALIGN_CHARACTERS}, "str:align (XalanEXSLTFunctionAlign::execute)")
+    padding_cp = form_of(pd, {False: PADDING_UNITS, True: PADDING_CHARACTERS}, "str:padding (XalanEXSLTFunctionPadding::execute)")
+    if align_cp != padding_cp:
+        raise AnchorError("str:padding and str:align do not count the same thing (one code units, the other characters)")
+    if align_cp:
+        m = need(r"\nunitsOfCharacters\s*\(", es, "static unitsOfCharacters() of XalanEXSLTString.cpp", 0)
+        ub = _norm(function_body(es, r"\nunitsOfCharacters\s*\([^)]*\)\s*\{", "unitsOfCharacters"))
+        if ub != UNITS_OF_CHARACTERS or not re.search(
+                r"static XalanDOMString::size_type unitsOfCharacters\(const XalanDOMString&theString,XalanDOMString::size_type thePairs,"
+                r"XalanDOMString::size_type theCount\)\{", _norm(es)):
+            raise AnchorError("unitsOfCharacters: not `thePairs == 0 ? theCount : XPathCharacters::unitsOf(c_str(), length(), theCount)`")
+        import gen_xpcp
+        if gen_xpcp._helpers() != (0xD800, 0xDBFF, 0xDC00, 0xDFFF):      # countPairs / unitsOf token for token = coq/XpCpDefs.v
+            raise AnchorError("XPathCharacters: surrogate bounds are not D800..DBFF / DC00..DFFF")
+    elif "XPathCharacters" in _norm(es) or "unitsOfCharacters" in _norm(es):
+        raise AnchorError("XalanEXSLTString.cpp uses XPathCharacters outside the recognised character form")
     # ---- decisions
     diff = _norm(function_body(read("XalanExtensions/FunctionDifference.cpp"), r"FunctionDifference::execute\s*\([^)]*\)\s*const\s*\{", "FunctionDifference::execute"))
     m = need(_lit("if (nodeset2.indexOf(theNode)") + r"(==|!=)" + _lit("NodeRefListBase::npos) { theResult->addNodeInDocOrder(theNode, executionContext); }"),
@@ -149,7 +242,8 @@ def gen_xpx():
          math, "findNodes: NaN clears, an equal value is added, a better value restarts the list", 0)
     need(_lit("if (theLength == 0) { return executionContext.getXObjectFactory().createNumber(DoubleSupport::getNaN()); }"), math, "findValue: empty node-set gives NaN", 0)
     facts = {"delims": delims, "center": center, "right": right, "space": space, "diff_keep_found": diff_keep_found,
-             "inter_keep_found": inter_keep_found, "lead_excl_self": lead_excl_self, "dirs": dirs, "align_exact": align_exact}
+             "inter_keep_found": inter_keep_found, "lead_excl_self": lead_excl_self, "dirs": dirs, "align_exact": align_exact,
+             "exslt_padding_align_count_characters": align_cp}
     b = lambda v: "true" if v else "false"
     text = HEADER + "\n".join([
         "From Coq Require Import List NArith Bool.", "Import ListNotations.", "",
@@ -161,6 +255,9 @@ def gen_xpx():
         "Definition gen_padding_default : list N := %s." % _nlist(space),
         "(* str:align compares the whole third argument with the keyword (true) or only its first |keyword| units (false) *)",
         "Definition gen_align_exact_keyword : bool := %s." % b(align_exact),
+        "(* str:padding and str:align compute their lengths as length() - XPathCharacters::countPairs() and cut with",
+        "   unitsOfCharacters() / XPathCharacters::unitsOf() (true), or measure and cut in UTF-16 code units (false: K6x) *)",
+        "Definition gen_exslt_padding_align_count_characters : bool := %s." % b(align_cp),
         "(* FunctionDifference / FunctionIntersection: a node of the first list is kept when (it is found in the second) = flag *)",
         "Definition gen_difference_keep_found : bool := %s." % b(diff_keep_found),
         "Definition gen_intersection_keep_found : bool := %s." % b(inter_keep_found),
